@@ -23,12 +23,13 @@ from harness import jsonify
 from harness.envs.base import EnvAdapter
 
 # documented scenarios (num_customers, num_vehicles) -> max_capacity, customer_demand_max
-_SCENARIO = {(6, 2): (20, 10), (6, 3): (20, 20), (20, 2): (60, 10), (20, 3): (60, 15)}
-_MAP_MAX = 10
-_MAX_START_WINDOW = 10
+_SCENARIO = {(6, 2): (20, 10), (6, 3): (20, 20), (20, 2): (60, 10), (20, 3): (60, 15),
+             (50, 2): (150, 10), (50, 3): (150, 15), (50, 4): (150, 20), (50, 5): (150, 25),
+             (100, 2): (300, 10), (100, 3): (300, 15), (100, 4): (300, 20), (100, 5): (300, 25), (150, 5): (180, 10)}
+# per number of customers: map size, maximal start of a time window, maximal early / late coefficients
+_BY_CUSTOMERS = {6: (10, 10, 0.2, 1.0), 20: (10, 10, 0.2, 1.0), 50: (20, 20, 0.2, 1.0), 100: (20, 40, 0.2, 1.0),
+                 150: (20, 60, 0.1, 0.5)}
 _WINDOW_LENGTH = 20
-_EARLY_COEF_MAX = 0.2
-_LATE_COEF_MAX = 1.0
 
 
 def _c(id, n, v, rew, episodes, policies, **kw):
@@ -58,12 +59,18 @@ class Adapter(EnvAdapter):
                    probe_every=3, probe_cap=30),
                 _c("c20v3_sparse", 20, 3, "sparse", 3, ["complete", "masked", "finish_at_limit"],
                    probe_every=6, probe_cap=36),
+                # one of the large shipped scenarios (map 20, capacity 150, 4 vehicles): the int16 fields hold real values
+                _c("c50v4_dense", 50, 4, "dense", 2, ["complete", "masked"], probe_every=25, probe_cap=20),
             ]
         out = []
         for (n, v) in ((6, 2), (6, 3), (20, 2), (20, 3)):
             for rew in ("dense", "sparse"):
                 out.append(_c(f"c{n}v{v}_{rew}", n, v, rew, 16 if n == 6 else 8, full,
                               probe_every=1 if n == 6 else 4, probe_cap=40 if n == 6 else 60))
+        # the large shipped scenarios (map 20, capacities 150 / 300 / 180, up to 5 vehicles, step limit up to 300)
+        for (n, v, rew) in ((50, 2, "sparse"), (50, 4, "dense"), (50, 5, "sparse"), (100, 3, "dense"), (100, 5, "sparse"),
+                            (150, 5, "dense")):
+            out.append(_c(f"c{n}v{v}_{rew}", n, v, rew, 3, ["complete", "masked", "stall"], probe_every=n // 2, probe_cap=20))
         return out
 
     def _build(self, ctor, rew):
@@ -87,11 +94,12 @@ class Adapter(EnvAdapter):
     def cfg_record(self, cfg, env):
         c = cfg["ctor"]
         cap, dmax = _SCENARIO[(c["num_customers"], c["num_vehicles"])]
+        map_max, msw, early, late = _BY_CUSTOMERS[c["num_customers"]]
         return {"num_customers": c["num_customers"], "num_vehicles": c["num_vehicles"], "reward_fn": c["reward_fn"],
-                "map_max": _MAP_MAX, "max_capacity": cap, "customer_demand_max": dmax,
-                "max_start_window": _MAX_START_WINDOW, "time_window_length": _WINDOW_LENGTH,
-                "early_coef_max_q": jsonify.fx(np.float32(_EARLY_COEF_MAX)),
-                "late_coef_max_q": jsonify.fx(np.float32(_LATE_COEF_MAX)),
+                "map_max": map_max, "max_capacity": cap, "customer_demand_max": dmax,
+                "max_start_window": msw, "time_window_length": _WINDOW_LENGTH,
+                "early_coef_max_q": jsonify.fx(np.float32(early)),
+                "late_coef_max_q": jsonify.fx(np.float32(late)),
                 # observed, for C01: the value action_spec.generate_value() produces
                 "gen_action": [int(x) for x in np.asarray(env.action_spec.generate_value()).reshape(-1)]}
 
